@@ -2,7 +2,7 @@
 // no running node) through generated event histories and records, after every
 // event, everything the API lets one observe.
 //
-// Hook file used: /repo/system/mempool/access_verif.go (build tag verif).
+// Hook files used: /repo/system/mempool/access_verif.go and (delay.go) access21b_verif.go (build tag verif).
 package main
 
 import (
@@ -105,6 +105,10 @@ type evSpec struct {
 	Txs    []int  `json:"txs,omitempty"`
 	Height int64  `json:"height,omitempty"`
 	BtOff  int64  `json:"btoff,omitempty"` // block time = virtual now + BtOff
+	// delay streams (delay.go): CommitDelayTx actions of an added block; EndDelayTime of an
+	// "adddelay" event (>= 2e9: seconds relative to T0, as for Expire)
+	Commits []commitSpec `json:"commits,omitempty"`
+	End     int64        `json:"end,omitempty"`
 }
 
 type txSpec struct {
@@ -128,6 +132,7 @@ type histSpec struct {
 	Txs      []txSpec `json:"txs"`
 	Events   []evSpec `json:"events"`
 	Workers  int      `json:"workers,omitempty"`
+	Delay    bool     `json:"delay,omitempty"` // run with runDHist (pool + delayed-transaction cache)
 }
 
 const relTime = int64(2000000000)
@@ -658,6 +663,8 @@ func main() {
 		}
 		if in.Stream == "concurrent-smoke" {
 			runConcurrent(o, in)
+		} else if in.Delay {
+			runDHist(o, in)
 		} else {
 			runHist(o, in)
 		}
@@ -694,6 +701,7 @@ func main() {
 	for i := 0; i < nColl; i++ {
 		runHist(o, genHist("collide", opts.Seed, i, opts.Thorough()))
 	}
+	delayStreams(o, opts.Seed, opts.Thorough())
 	types.SetTimeDelta(0)
 	for i := 0; i < nConc; i++ {
 		s := genHist("guarded", opts.Seed, 100000+i, false)
